@@ -187,3 +187,64 @@ Example build_ops_example :
         mkI 2 op_JUMP_FORWARD (Some 3%N) None None (Some 3%N) (Some 1%N);
         mkI 3 op_RETURN_CONST None None None None (Some 2%N)].
 Proof. vm_compute. reflexivity. Qed.
+
+(* ======================================================================================================== *)
+(* The synthetic exception opcodes (opcodes.py _add_setup_except / _add_exception_block), tied to the exception
+   table.  Hypothesis [wf_excb items entries] (monitored on every real code object, like wf_ops): the offset table
+   holds only real instructions, sorted, at even byte offsets (keys 2*off+1, i.e. 1 mod 4); every entry starts and
+   is handled at an instruction, start <= (inclusive) end; the entries are sorted and pairwise disjoint, as CPython
+   emits them.  [kept_entries] are the entries pytype keeps (handler not END_ASYNC_FOR/CLEANUP_THROW/SWAP, not
+   lasti, first kept entry of its source line). *)
+From Coq Require Import Sorted.
+From PV Require Import Blocks.ExcProofs.
+
+(* (iv) no KeyError / ValueError path is taken *)
+Theorem exception_ops_total : forall (items : list xitem) (entries : list exc_entry),
+  wf_excb items entries = true -> exists out, add_setup_except entries items = Ok out.
+Proof. exact exception_ops_total_lemma. Qed.
+Print Assumptions exception_ops_total.
+
+(* (ii) the real instructions and their order are unchanged: the output restricted to real (odd) keys is the input *)
+Theorem exception_ops_preserve_real : forall (items : list xitem) (entries : list exc_entry) (out : list xitem),
+  wf_excb items entries = true -> add_setup_except entries items = Ok out ->
+  filter (fun it => N.odd (x_key it)) out = items.
+Proof. exact exception_ops_preserve_real_lemma. Qed.
+Print Assumptions exception_ops_preserve_real.
+
+(* (i) no two ops share a key; there are exactly two synthetic ops per kept entry; every kept entry has its
+   SETUP_EXCEPT_311 immediately before the instruction at its start, with target = the instruction at the entry's
+   handler offset, and its POP_BLOCK immediately after the last instruction at or before its (inclusive) end *)
+Theorem exception_ops_complete : forall (items : list xitem) (entries : list exc_entry) (out : list xitem),
+  wf_excb items entries = true -> add_setup_except entries items = Ok out ->
+  StronglySorted N.lt (map x_key out) /\
+  length (filter (fun it => N.even (x_key it)) out) = (2 * length (kept_entries entries items))%nat /\
+  forall e, In e (kept_entries entries items) ->
+    (exists l1 s l2,
+       out = l1 ++ mkX (key_of (e_start e) - 1) op_SETUP_EXCEPT_311 (x_line s) (Some (key_of (e_target e))) :: s :: l2 /\
+       In s items /\ x_key s = key_of (e_start e)) /\
+    (exists l1 lst l2,
+       out = l1 ++ lst :: mkX (x_key lst + 1) op_POP_BLOCK (x_line lst) None :: l2 /\
+       In lst items /\ (x_key lst <= key_of (e_end e))%N /\
+       forall it, In it items -> (x_key it <= key_of (e_end e))%N -> (x_key it <= x_key lst)%N).
+Proof. exact exception_ops_complete_lemma. Qed.
+Print Assumptions exception_ops_complete.
+
+(* (iii) along the output, SETUP_EXCEPT_311 (key 0 mod 4) and POP_BLOCK (key 2 mod 4) are properly bracketed: never
+   two open at once, none open at the end *)
+Theorem exception_ops_nested : forall (items : list xitem) (entries : list exc_entry) (out : list xitem),
+  wf_excb items entries = true -> add_setup_except entries items = Ok out ->
+  brk (map x_key out) false = true.
+Proof. exact exception_ops_nested_lemma. Qed.
+Print Assumptions exception_ops_nested.
+
+(* non-vacuity: two ADJACENT ranges (offsets 2..4 -> handler 8 and 6..6 -> handler 10; the last instruction of the
+   first range has no inline cache) - the POP_BLOCK of the first (key 10) and the SETUP of the second (key 12) get
+   different keys, the hypotheses hold and both entries are kept *)
+Example adjacent_ranges :
+  let items := [mkX 1 op_RESUME 1 None; mkX 5 op_NOP 2 None; mkX 9 op_POP_TOP 2 None; mkX 13 op_NOP 3 None;
+                mkX 17 op_PUSH_EXC_INFO 4 None; mkX 21 op_PUSH_EXC_INFO 5 None; mkX 25 op_RERAISE 5 None] in
+  let entries := [mkE 2 4 8 false; mkE 6 6 10 false] in
+  wf_excb items entries = true /\ length (kept_entries entries items) = 2 /\
+  option_map (map x_key) (match add_setup_except entries items with Ok o => Some o | Err _ => None end)
+  = Some [1; 4; 5; 9; 10; 12; 13; 14; 17; 21; 25]%N.
+Proof. vm_compute. auto. Qed.
